@@ -35,8 +35,8 @@ func (v Version) String() string {
 
 // Equal reports whether the two versions are equivalent.
 func (v Version) Equal(w Version) bool {
-	if v.VersionKey == w.VersionKey {
-		return true
+	if v.VersionKey != w.VersionKey {
+		return false
 	}
 	return v.AttrSet.Equal(w.AttrSet)
 }
